@@ -102,10 +102,15 @@ func (e *Engine) allocSet(fn *ssa.Function) (map[string]bool, bool) {
 				set[otherAlloc] = true
 			case *ssa.MakeClosure:
 				set[otherAlloc] = true
-			case *ssa.Go, *ssa.Defer:
+			case *ssa.Go:
 				known = false
-			case *ssa.Call:
-				c := in.Common()
+			case *ssa.Call, *ssa.Defer:
+				// H3: a deferred call runs within the dynamic extent of fn, so what it allocates is allocated "by fn": it is
+				// analysed like a direct call (statically unknown callees still give "unknown"); the defer record is no struct T.
+				c := in.(ssa.CallInstruction).Common()
+				if _, isDefer := in.(*ssa.Defer); isDefer {
+					set[otherAlloc] = true
+				}
 				if c.IsInvoke() {
 					s, k := e.allocSetInvoke(c)
 					add(s, k)
@@ -148,7 +153,7 @@ func (e *Engine) allocSetInvoke(c *ssa.CallCommon) (map[string]bool, bool) {
 		return nil, false
 	}
 	ikey := "(" + types.TypeString(types.Unalias(c.Value.Type()), nil) + ")." + c.Method.Name()
-	if ct, ok := e.Contracts[ikey]; ok && (ct.Pure || ct.Options["no-alloc"]) {
+	if ct := e.lookupContract(ikey); ct != nil && (ct.Pure || ct.Options["no-alloc"]) {
 		return map[string]bool{}, true
 	}
 	if !strings.HasPrefix(types.TypeString(types.Unalias(c.Value.Type()), nil), repoModule) {
@@ -226,6 +231,193 @@ func (vc *VC) notForeign(st *State, q string, t types.Type) string {
 	}
 	if len(cs) == 0 {
 		return "true"
+	}
+	return and(cs...)
+}
+
+// ---------------------------------------------------------------------------------------------------------------
+// Which ghost globals may a call change? Ghost globals (ghost*/Ghost* variables of contract files) are written only
+// through contracts (a trusted or interface contract lists them in `modifies`), never by code. A function may
+// therefore change ghost global G iff its own contract lists G, or its body (transitively) calls something that may.
+// Calls whose target is unknown (function values) may change every ghost global.
+// ---------------------------------------------------------------------------------------------------------------
+
+type ghostInfo struct {
+	known bool
+	set   map[string]bool // heap roots "G|pkg.name"
+}
+
+var ghostMemo = map[*ssa.Function]*ghostInfo{}
+var ghostBusy = map[*ssa.Function]int{}
+var ghostDepth int
+var ghostTaint = 1 << 30
+var ghostVisits int
+
+func (e *Engine) contractGhostMods(ct *Contract, set map[string]bool) {
+	if ct == nil {
+		return
+	}
+	for _, m := range ct.Modifies {
+		for _, g := range e.ghostGlobals() {
+			if strings.Contains(m.Text, g.Name()) {
+				set["G|"+g.Pkg.Pkg.Path()+"."+g.Name()] = true
+			}
+		}
+	}
+}
+
+// ghostMods returns the ghost globals fn may change; known=false means "any".
+func (e *Engine) ghostMods(fn *ssa.Function) (map[string]bool, bool) {
+	if fn == nil {
+		return nil, false
+	}
+	if gi, ok := ghostMemo[fn]; ok {
+		return gi.set, gi.known
+	}
+	set := map[string]bool{}
+	ct := e.contractFor(fn)
+	e.contractGhostMods(ct, set)
+	if fn.Blocks == nil || (ct != nil && (ct.Trusted || ct.Pure)) {
+		// no body (or a trusted contract that stands for the body): only what the contract lists
+		ghostMemo[fn] = &ghostInfo{known: true, set: set}
+		return set, true
+	}
+	if d, busy := ghostBusy[fn]; busy {
+		if d < ghostTaint {
+			ghostTaint = d
+		}
+		return set, true
+	}
+	ghostVisits++
+	if ghostVisits > allocBudget {
+		return nil, false
+	}
+	ghostDepth++
+	myDepth := ghostDepth
+	ghostBusy[fn] = myDepth
+	defer func() {
+		delete(ghostBusy, fn)
+		ghostDepth--
+	}()
+	known := true
+	add := func(s map[string]bool, k bool) {
+		if !k {
+			known = false
+		}
+		for x := range s {
+			set[x] = true
+		}
+	}
+	for _, b := range fn.Blocks {
+		for _, ins := range b.Instrs {
+			var c *ssa.CallCommon
+			switch in := ins.(type) {
+			case *ssa.Call:
+				c = in.Common()
+			case *ssa.Go:
+				c = in.Common()
+			case *ssa.Defer:
+				c = in.Common()
+			default:
+				continue
+			}
+			if c.IsInvoke() {
+				s, k := e.ghostModsInvoke(c)
+				add(s, k)
+				continue
+			}
+			switch f := c.Value.(type) {
+			case *ssa.Builtin:
+			case *ssa.Function:
+				s, k := e.ghostMods(f)
+				add(s, k)
+			case *ssa.MakeClosure:
+				s, k := e.ghostMods(f.Fn.(*ssa.Function))
+				add(s, k)
+			default:
+				known = false
+			}
+		}
+	}
+	if !known {
+		set = nil
+	}
+	if ghostTaint >= myDepth {
+		ghostMemo[fn] = &ghostInfo{known: known, set: set}
+		if ghostTaint == myDepth {
+			ghostTaint = 1 << 30
+		}
+	}
+	return set, known
+}
+
+func (e *Engine) ghostModsInvoke(c *ssa.CallCommon) (map[string]bool, bool) {
+	set := map[string]bool{}
+	ikey := "(" + types.TypeString(types.Unalias(c.Value.Type()), nil) + ")." + c.Method.Name()
+	if ct := e.lookupContract(ikey); ct != nil {
+		e.contractGhostMods(ct, set)
+		if ct.Pure {
+			return set, true
+		}
+		if !strings.HasPrefix(types.TypeString(types.Unalias(c.Value.Type()), nil), repoModule) {
+			// a library interface under an assumed contract (hash.Hash, io.Reader): its implementations are not
+			// analysed, the contract is all that is known and all that is trusted
+			return set, true
+		}
+	}
+	iface, ok := types.Unalias(c.Value.Type()).Underlying().(*types.Interface)
+	if !ok {
+		return nil, false
+	}
+	var names []string
+	for n := range e.AllFuncs {
+		names = append(names, n)
+	}
+	sort.Strings(names)
+	for _, n := range names {
+		fn := e.AllFuncs[n]
+		if fn.Name() != c.Method.Name() || fn.Signature.Recv() == nil || fn.Synthetic != "" {
+			continue
+		}
+		if !types.Implements(fn.Signature.Recv().Type(), iface) {
+			continue
+		}
+		s, k := e.ghostMods(fn)
+		if !k {
+			return nil, false
+		}
+		for x := range s {
+			set[x] = true
+		}
+	}
+	// implementations outside the loaded code (library interfaces such as hash.Hash, io.Reader) act only through the
+	// interface contract, which was taken into account above
+	return set, true
+}
+
+
+// typedRefFact (H3): a value of static type *T (T a struct) is nil or refers to a T object, so it does not lie in a
+// region handed out by a callee that cannot allocate a T. Stated for call results and for ground loads of *T-typed
+// leaves; without it the result of a callee (or a field read) cannot serve as a witness/instance of a quantifier over *T
+// once some other call has created a foreign region. Sound by Go type safety (the subset excludes unsafe): every object
+// of a region with allocation set S has a type in S; T not in S => no *T value points into it. nil (0) has region 0.
+func (vc *VC) typedRefFact(st *State, t types.Type, v Val) string {
+	if len(vc.regionSets) == 0 {
+		return "true"
+	}
+	var cs []string
+	ts := flatT(t, v)
+	for i, l := range leaves(t) {
+		if l.Typ == nil || l.Sort != "Int" || i >= len(ts) {
+			continue
+		}
+		if p, ok := under(l.Typ).(*types.Pointer); ok {
+			if _, ok := under(p.Elem()).(*types.Struct); ok {
+				if nf := vc.notForeign(st, ts[i], l.Typ); nf != "true" {
+					cs = append(cs, nf)
+				}
+			}
+		}
 	}
 	return and(cs...)
 }
